@@ -126,7 +126,14 @@ RULE = (
     "the filter it ended up with (per diode parameter fitted / fixed at which value / absent, number of fitted parameters), "
     "and an exhaustive scope of the combinations it has to refuse (active x axial x transferred drag {None, 0, value} x fast "
     "x fixed diode x hydro x driving data {None, empty, given} x guess {None, 0, negative, positive}); the robust loss "
-    "lorentzian_loss on a ScaledModel (op c11.lloss) for every filter shape x hydro at and around the generating parameters."
+    "lorentzian_loss on a ScaledModel (op c11.lloss) for every filter shape x hydro at and around the generating parameters. "
+    "STRENGTHENING ROUND H: the lk.calibrate_force records also vary the sample rate (78.125 / 50 / 40 / 30 kHz, 20 kHz for "
+    "filters without a fitted f_diode, random in between) and the fit range (keyword left out = the documented default "
+    "(100 Hz, 23 kHz), explicit, ending at / above the Nyquist frequency, inside the band, lower limit 100 Hz .. fc/3), random "
+    "and as a deterministic scope rate x range x filter x passive/active; the validation scope of lk.fit_power_spectrum also "
+    "passes, in otherwise valid calls, an object that is not a PowerSpectrum (TypeError); noisy analytical-fit spectra of every "
+    "kind may start at the DC bin (fall-back initial guess with frequency[0] = 0); the drive scope puts a second tone exactly "
+    "on the lower / upper edge bin of the (open) search range on a dyadic frequency grid."
 )
 TRUSTED = [
     "RealLike formulas are proved over the reals and executed at Float: rounding is not modelled, the comparison "
@@ -490,6 +497,11 @@ def _impl(case, k):
         f = 100.0 + 500.0 * (np.arange(case["npts"]) + 0.5)
         ps = make_ps(f, np.asarray(m(f, 1000.0, 1.0), dtype=float), 1.0, 100)
         rng_anl = (10.0, 1e4) if case["anl"] else (1e5, 2e5)
+        if case.get("arg", "PowerSpectrum") == "duck":
+            # strengthening round H: an object that has every public attribute of the spectrum but is not a PowerSpectrum
+            import types
+
+            ps = types.SimpleNamespace(**{k: getattr(ps, k) for k in dir(ps) if not k.startswith("_")})
         lk.fit_power_spectrum(ps, m, analytical_fit_range=rng_anl, bias_correction=case["bias"], loss_function=case["loss"])
         return ["ok"]
     if k == "drive":
@@ -716,10 +728,15 @@ def impl_calib(c):
         distance_to_surface=o["dist"],
         fast_sensor=o["fast"],
         num_points_per_block=c["nblock"],
-        fit_range=(100.0, 23000.0),
         fixed_diode=None if fixed is None else fixed[0],
         fixed_alpha=None if fixed is None else fixed[1],
     )
+    # strengthening round H: the fit range is part of the case.  "default" leaves the keyword out (the documented default
+    # (100 Hz, 23 kHz) is then applied by the library to a record of ANY sample rate, also one whose Nyquist frequency lies
+    # below 23 kHz); an explicit range may end above the Nyquist frequency (the spectrum simply ends there)
+    fr = c.get("fit_range", [100.0, 23000.0])
+    if fr != "default":
+        kw.update(fit_range=(float(fr[0]), float(fr[1])))
     a = c.get("a")
     if a is not None:
         t = np.arange(c["n"]) / c["rate"]
@@ -924,7 +941,8 @@ def ops(case):
         kind = case["kind"] if case["kind"] != "fixed" else f"fixed {eo(case['fixed'][0])} {eo(case['fixed'][1])}"
         return [f"c11.fitbounds {kind} {enc_float(case['rate'])}"]
     if k == "fitval":
-        return [f"c11.fitvalidate {case['npts']} {case['loss']} {enc_bool(case['bias'])} {case['npts'] if case['anl'] else 0}"]
+        op = f"c11.fitvalidate {case['npts']} {case['loss']} {enc_bool(case['bias'])} {case['npts'] if case['anl'] else 0}"
+        return [op + (" " + enc_bool(case["arg"] == "PowerSpectrum") if "arg" in case else "")]
     if k == "drive":
         sl = _cache.get(("drive-slice", case_key(case)))
         if sl is None:
@@ -1578,7 +1596,7 @@ def extra_coverage(results):
         "chi2_objective_ties_hydro": sum(1 for r in fits if len(r["impl"]) > 3 and r["impl"][3].startswith("ok") and r["case"]["o"]["hydro"]),
         "chi2_objective_ties_noise_free": sum(1 for r in fits if len(r["impl"]) > 3 and r["impl"][3].startswith("ok") and not r["case"]["noisy"]),
         "fit_validation_scope(impl answers)": {
-            k: sum(1 for r in results if r["case"]["op"] == "fitval" and r["impl"][0] == k) for k in ("ok", "RuntimeError", "ValueError")
+            k: sum(1 for r in results if r["case"]["op"] == "fitval" and r["impl"][0] == k) for k in ("ok", "RuntimeError", "ValueError", "TypeError")
         },
         "active_cases_with_model_side_peak_search(np.argmax of DrivenPower)": sum(
             1 for r in results if r["ops"] and r["ops"][0].startswith("c11.active") and r["ops"][0].rstrip().endswith("]") and r["ops"][0].count("[") >= 2
@@ -1778,7 +1796,9 @@ def noisy_anl_case(rng, stream, quick):
     lo = rng.uniform(0.05, 0.5) * fc0
     hi = rng.uniform(2.0, 10.0) * fc0
     fs = [lo + (hi - lo) * (i + rng.uniform(0.0, 0.5)) / n for i in range(n)]
-    if kind == 0 and rng.chance(0.3):
+    if rng.chance(0.3):
+        # the spectrum starts at the DC bin (strengthening round H: for every kind, so that the fall-back initial guess
+        # "half the lowest NON-ZERO frequency" is taken with frequency[0] = 0 too)
         fs[0] = 0.0
     if kind == 0:  # Lorentzian with multiplicative noise
         ps = [rng.loguniform(0.7, 1.4) / (1.0 + (f / fc0) ** 2) for f in fs]
@@ -1840,12 +1860,37 @@ def calib_case(rng, stream, quick, active):
         o["axial"] = rng.chance(0.5)
         if o["axial"] and o["dist"] is not None:
             o["dist"] = max(o["dist"], 0.5 * o["d"] * 1.001)
-    rate = 78125.0
+    # strengthening round H: the sample rate and the fit range are drawn too (they used to be 78.125 kHz and an explicit
+    # (100 Hz, 23 kHz) on every record, so neither the default range nor a record with a Nyquist frequency below the upper
+    # fit limit ever reached calculate_power_spectrum).  A fitted f_diode starts at 14 kHz and is bounded by the Nyquist
+    # frequency, so records with a free diode frequency stay at >= 30 kHz; f_diode (fitted) and fc stay inside the band.
+    free_fd = "f_diode" in fitted_par_names(c)
+    rate = rng.choice([78125.0, 78125.0, 50000.0, 40000.0, 30000.0 if free_fd else 20000.0, float(rng.randint(30000 if free_fd else 20000, 78125))])
+    nyq = rate / 2.0
+    if free_fd and c["fdiode"] > 0.8 * nyq:
+        c["fdiode"] = rng.uniform(5000.0, 0.8 * nyq)
+    fc_hi = min(6000.0, 0.3 * nyq, 0.3 * c["fdiode"] if not o["fast"] else 6000.0)
+    if c["fc"] > fc_hi:
+        c["fc"] = rng.loguniform(300.0, fc_hi)
+    fmin = rng.choice([100.0, 100.0, rng.uniform(100.0, c["fc"] / 3.0)])
+    need = max(1.15 * c["fdiode"] if free_fd else 0.0, 4.0 * c["fc"])  # the roll-off has to be inside the fitted band
+    kind = rng.choice(["default", "default", "explicit", "nyquist", "beyond", "narrow"])
+    if kind == "default":
+        fit_range, fmin = "default", 100.0
+    elif kind == "explicit":
+        fit_range = [fmin, 23000.0]
+    elif kind == "nyquist":
+        fit_range = [fmin, nyq]
+    elif kind == "beyond":
+        fit_range = [fmin, nyq * rng.uniform(1.0, 2.0)]
+    else:
+        fit_range = [fmin, rng.uniform(need, max(need, min(23000.0, nyq)))]
+    fmax = min(23000.0 if fit_range == "default" else fit_range[1], nyq)
     dur = rng.uniform(1.0, 2.0) if quick else rng.uniform(2.0, 6.0)
     n = 2 * int(rate * dur / 2)
-    bins = (23000.0 - 100.0) * (n / rate)
+    bins = (fmax - fmin) * (n / rate)
     npts = rng.randint(150, 400)
-    c.update(op="calib", rate=rate, n=n, nblock=max(20, int(bins / npts)))
+    c.update(op="calib", rate=rate, n=n, nblock=max(20, int(bins / npts)), fit_range=fit_range)
     for key in ("step", "npts", "dur", "fmin", "noisy"):
         c.pop(key, None)
     if active:
@@ -1859,8 +1904,8 @@ def calib_case(rng, stream, quick, active):
         # 81 Hz, fc 567 instead of 916).  That is the measurement, not the code: the skirt at 100 Hz is kept below 1 %
         # of the thermal level there.
         T = n / rate
-        thermal100 = c["D"] / (math.pi**2 * (100.0**2 + c["fc"] ** 2))
-        volts_amp = min(volts_amp, math.sqrt(0.01 * thermal100 * 2 * math.pi**2 * T * (100.0 - f) ** 2))
+        thermal100 = c["D"] / (math.pi**2 * (fmin**2 + c["fc"] ** 2))
+        volts_amp = min(volts_amp, math.sqrt(0.01 * thermal100 * 2 * math.pi**2 * T * (fmin - f) ** 2))
         c["a"] = {
             "f": f,
             "amp_um": rng.loguniform(0.05, 2.0),
@@ -1911,6 +1956,38 @@ def calib_matrix(quick):
                 # a transferred drag of 0.0 is falsy: `if drag:` must treat it like None (passive: not applied; active: not refused)
                 c0 = dict(c, o=dict(o, drag=0.0), subseed=5000 + idx)
                 yield c0
+    # strengthening round H: sample rate x fit range {keyword left out (documented default 100 Hz - 23 kHz), ends at the
+    # Nyquist frequency, ends above it, inside the band} x filter x passive/active on the plain bulk model.  The default range
+    # has to work on every record: below 46 kHz its upper limit lies above the Nyquist frequency and the spectrum simply ends
+    # there.  (A fitted f_diode starts at 14 kHz and is bounded by the Nyquist frequency: free-diode cells need >= 28 kHz.)
+    for rate in (78125.0, 40000.0) if quick else (78125.0, 50000.0, 40000.0, 30000.0):
+        nyq = rate / 2.0
+        for rk, active, (fname, fast, fixed) in itertools.product(("default", "nyquist", "beyond", "inside"), (False, True), filters):
+            if quick and rk in ("nyquist", "inside") and (active or fname in ("fd", "al")):
+                continue
+            idx += 1
+            fr = {"default": "default", "nyquist": [100.0, nyq], "beyond": [100.0, 1.5 * nyq], "inside": [150.0, 0.9 * nyq]}[rk]
+            tr = dict(truth, fdiode=min(truth["fdiode"], 0.7 * nyq))
+            if fixed is not None and fixed[0] is not None:
+                fixed = [tr["fdiode"], fixed[1]]
+            o = base_opts(d=1.2, visc=0.0009, temp=25.0, fast=fast)
+            c = {
+                "stream": "matrix-calibrate_force-rate",
+                "op": "calib",
+                "o": o,
+                "fixed": None if fixed is None else list(fixed),
+                **tr,
+                "nblock": 60,
+                "rate": rate,
+                "n": 2 * int(rate / 2),
+                "fit_range": fr,
+                "subseed": 9000 + idx,
+            }
+            if active:
+                f = 37.0
+                thermal = tr["D"] / (math.pi**2 * (f * f + tr["fc"] ** 2))
+                c["a"] = {"f": f, "amp_um": 0.5, "phase": 1.0, "volts_amp": math.sqrt(2 * (f / 5) * thermal * 1e3), "guess": 36.0}
+            yield c
 
 
 def drive_case(rng, stream, quick):
@@ -2038,6 +2115,25 @@ def drive_scope():
                     "tones": [list(t) for t in tones],
                     "subseed": 1,
                 }
+    # strengthening round H: the search range is OPEN (guess - f_search < f < guess + f_search).  On a dyadic grid (8192 Hz,
+    # 16384 samples: bins at exact multiples of 0.5 Hz) a slightly stronger second tone sits exactly on the lower / upper
+    # edge bin: it is outside the range, the peak inside the range has to be reported
+    for guess, edge in itertools.product((22.0, 18.0), (-5.0, 5.0)):
+        yield {
+            "stream": "scope-drive",
+            "op": "drive",
+            "scope": True,
+            "rate": 8192.0,
+            "n": 16384,
+            "f": 20.0,
+            "amp": 0.8,
+            "phase": 0.3,
+            "offset": 1.1,
+            "noise": 0.0,
+            "guess": guess,
+            "tones": [[guess + edge, 1.1]],
+            "subseed": 1,
+        }
     # rarely used options of the estimator: f_search (width of the search range), window_factor (width of the window)
     for f_search, wf, off in itertools.product((2.0, 9.5), (6, 10, 14), (0.0, 1.7, -2.6, 8.0)):
         yield {
@@ -2178,6 +2274,10 @@ def cases(tier, rng):
     # ---- argument validation of fit_power_spectrum: exhaustive small scope (deterministic)
     for npts, loss, bias, anl in itertools.product((3, 4, 5, 12), ("gaussian", "lorentzian", "huber"), (False, True), (True, False)):
         yield {"stream": "scope-fit-validation", "op": "fitval", "npts": npts, "loss": loss, "bias": bias, "anl": anl}
+        if anl and npts >= 4 and loss != "huber" and not (bias and loss == "lorentzian"):
+            # strengthening round H: an otherwise valid call with an argument that is not a PowerSpectrum (documented
+            # TypeError; only calls whose ONLY defect is the type, so that the order of the raise statements does not matter)
+            yield {"stream": "scope-fit-validation", "op": "fitval", "npts": npts, "loss": loss, "bias": bias, "anl": anl, "arg": "duck"}
     yield from calib_matrix(quick)
     r = rng.fork("calib")
     for i in range(16 if quick else 160):
